@@ -175,6 +175,19 @@ func bitRefs(w *World, fn *ssa.Function) []BitRef {
 						}
 					}
 				}
+				// the whole position used as the shift count (`1 << uint(j)` for the word j>>6): Go shifts by 64 or more
+				// give 0, so every bit at an offset of 64 or beyond is lost
+				if br.SplitOff == nil && fa.Lin(off).Eq(br.PosLin) {
+					okB := false
+					if useBlk != nil {
+						if bd := fa.BoundsAt(useBlk, fa.Lin(off)); bd.HasHi && bd.Hi <= 63 {
+							okB = true
+						}
+					}
+					if !okB {
+						br.Problem = "the bit selector is shifted by the whole position, not by its offset inside the word (position & 63): a shift by 64 or more yields 0 and the bit is lost"
+					}
+				}
 				// an offset masked with something that is not 2^j-1 (x & 62) drops positions
 				if _, k, isAnd := asBinConst(off, token.AND); isAnd && k > 0 {
 					if _, pow := log2(uint64(k) + 1); !pow {
